@@ -403,6 +403,8 @@ def check_swap(ctx, unit, classes, rule="S.swap"):
                         ident = all((x.kind == "UnaryOperator" and x.op == "&") or x.kind == "CXXThisExpr" for x in sides)
                         if ident and ((c.op == "==") == t):
                             toks = toks | {"<same object>"}
+                        elif ident:
+                            toks = toks | {"<distinct>"}
                     return [(toks, vals)]
                 _, ex = _flow.run(f, [(frozenset(), sx.initial() if sx is not None else frozenset())], transfer, refine)
                 swapped = set(fields)
@@ -411,6 +413,12 @@ def check_swap(ctx, unit, classes, rule="S.swap"):
                     if "<same object>" in toks:
                         continue
                     got = {t for t in toks if isinstance(t, str)}
+                    if sx is not None and "<distinct>" not in toks and any(isinstance(t, tuple) and t[0] == "dtor" for t in toks) \
+                            and any(isinstance(t, tuple) and t[0] == "new" for t in toks):
+                        # elements change sides by destroy-here / move-construct-from-there: with a and b the same object
+                        # (swap(v, v), std::shuffle, iter_swap(i, i)) that moves from an element destroyed a line earlier
+                        why.append("the elements are handed over one by one (destroyed, then move-constructed from the other side) although the two "
+                                   "operands may be the same object: no `&a == &b` test guards this path")
                     if sx is not None:
                         for fl in stor:
                             if fl not in got:
